@@ -85,6 +85,22 @@ def check(rng, override=None):
     dev = max(np.abs(rn[k][:W] - rf[k][:W]).max() for k in ('k', 'c', 'y', 'p'))
     if dev > 1e-6:
         C.push(out, dict(what='nested solved block does not honour the distinct initial steady state (differs from the flat solution)', input=dict(kind='newton', ss_initial=True, nested=True), observed=float(dev), signature=dict(op='initial-ss-nested')))
+    # a LINEAR model (targets affine in the unknowns): the nonlinear solution is the linear impulse (one exact Newton update -- theorem C06.2)
+    lm = M.write_linear_models('c06lin', [[dict(name='a', ins=['x', 'z'], outs={'y': {'x': (2, -1), 'z': 1}}),
+                                           dict(name='b', ins=['y', 'x', 'z'], outs={'res': {'y': 1, 'x': (-3, 0), 'z': (1, 1)}})]])
+    from sequence_jacobian import combine
+    lin_model = combine([lm.m0_a, lm.m0_b], name='linmodel')
+    lss = lin_model.steady_state({'x': 0.0, 'z': 0.0})
+    dz = {'z': np.r_[1.0, -0.5, 0.25, np.zeros(T - 3)]}
+    n += 1
+    try:
+        rl = lin_model.solve_impulse_linear(lss, ['x'], ['res'], dz)
+        rnl = lin_model.solve_impulse_nonlinear(lss, ['x'], ['res'], dz, options={'linmodel': dict(verbose=False, maxit=3, tol=1e-10)})
+        dev = max(np.abs(rnl[k][:W] - rl[k][:W]).max() for k in ('x', 'y'))
+        if dev > 1e-9:
+            C.push(out, dict(what='for a linear model the nonlinear transition path differs from the linear impulse', input=dict(kind='newton', model='linear'), observed=float(dev), signature=dict(op='linear-model')))
+    except ValueError as ex:
+        C.push(out, dict(what=f'for a linear model the Newton iteration did not converge within 3 iterations: {ex}', input=dict(kind='newton', model='linear'), signature=dict(op='linear-model', raised=True)))
     # second-order convergence to the linear impulse
     lin = flat.solve_impulse_linear(ss, U, Tg, {'z': 0.5 ** np.arange(T)})
     errs = []
